@@ -236,6 +236,11 @@ inline void runC07(Ctx &c)
             if (!c.require("C07.reference_state_accepted", initRig(rig, oc), okey(oc, "setup")))
                 continue;
             x = genDecisionVector(r, oc, rig);
+            if (oc.exactZeros && r.coin(0.7))
+            {
+                x = initialGuessModel(oc, *rig.env, rig.tmH, rig.smH); // exact zeros of the data survive in x
+                c.event("decision_vector.at_initial_guess_with_exact_zeros");
+            }
             c.nontrivial(hashOptCase(oc, &x));
             if (idx < 1)
                 c.wantSample();
@@ -503,6 +508,16 @@ inline void c09CheckConfig(Ctx &c, OptCase &oc, OptRig &rig, Rng &r, bool fullPr
     int total = 0;
     auto L = layoutModel(oc, *rig.env, rig.smH, &total);
     const Problem ref = effectiveRef(oc);
+    if (r.coin(0.4))
+    {
+        // the first thing after a (re)configuration is an evaluation with a hand-assembled decision vector (no
+        // getDimension / generateInitialGuess in between)
+        VectorXd xf = genDecisionVector(r, oc, rig);
+        Decoded df = observeDecoded(oc, rig, xf);
+        Problem dmf = decodeModel(oc, *rig.env, rig.tmH, rig.smH, xf);
+        c.require("C09.first_evaluation_after_reconfiguration_decodes_by_model", df.ok && bitEqualVec(df.T, dmf.T) && bitEqualMat(df.Q, dmf.P), okey(oc, "decode"), how);
+        c.event("evaluate_first_after_reconfiguration");
+    }
     c.require("C09.dimension_equals_model", rig.opt->getDimension() == total, okey(oc, "dimension"), how + " reported=" + std::to_string(rig.opt->getDimension()) + " model=" + std::to_string(total));
     // initial guess decodes back to the reference
     VectorXd x0 = rig.opt->initialGuess();
